@@ -958,6 +958,194 @@ def _tdm1_oracle(ctx, sf, case, count=True):
         ctx.fail(f"tdm-mode-limits:{target}", f"accepted {target} program exceeds the device mode limits {modes}", rp)
 
 
+
+# ====================================================================== state kept between compiles, helper functions
+def hard_reset(sf):
+    from strawberryfields.compilers import compiler_db
+    for c in set(compiler_db.values()):
+        c._layout = None
+        c._graph = None
+
+
+def prepare_any(sf, fx, case):
+    if case["kind"] == "x":
+        return build_prog(sf, case["desc"]), sf.Device(case_spec(case)), case["comp"]
+    if case["kind"] == "borealis":
+        return build_borealis(sf, case), borealis_device(sf, fx, case["loop_phases"])[0], None
+    prog, dev, _ = build_tdm1(sf, case)
+    return prog, dev, case["target"]
+
+
+def outcome_any(sf, prog, dev, comp):
+    from strawberryfields.program_utils import CircuitError
+    try:
+        c = prog.compile(device=dev, compiler=comp) if comp else prog.compile(device=dev)
+    except Exception as e:  # noqa: BLE001
+        return ("err", classify_exception(e, CircuitError) or f"{type(e).__name__}: {str(e)[:100]}")
+    key = [(type(x.op).__name__, tuple(r.ind for r in x.reg), str([round(float(v), 9) if isinstance(v, (int, float)) else str(v) for v in x.op.p]))
+           for x in c.circuit]
+    tp = [[round(float(v), 9) for v in a] for a in c.tdm_params] if hasattr(c, "tdm_params") else None
+    return ("ok", key, tp)
+
+
+def history_oracle(ctx, sf, fx):
+    """compilers keep the layout (and its graph) as class attributes between compiles: the outcome of a compile must not
+    depend on what was compiled before, given the documented `reset_circuit()` — and without a reset only through the
+    documented 'Circuit already set' CircuitError"""
+    from strawberryfields.compilers import compiler_db
+    rng, nprng = ctx.rng, ctx.nprng(31)
+    strip = lambda t: (t or "").replace("\n", "")
+    for _ in range(ctx.n(3, 30)):
+        pool = []
+        comp = rng.choice(["Xunitary", "Xcov", "Xstrict"])
+        for _k in range(3):
+            c = gen_x_case(rng, nprng)
+            tries = 0
+            while (c["comp"] != comp or c.get("gp")) and tries < 40:
+                c = gen_x_case(rng, nprng); tries += 1
+            c["complist"] = [c["comp"]]              # default compiler == requested one: the layout is stored in the class
+            pool.append(c)
+        tgt = rng.choice(["TDM", "TD2"])
+        for _k in range(3):
+            c = gen_tdm1_case(rng)
+            c["target"] = tgt
+            c["mut"] = rng.choice([None, None, "sq-value", "bs-swapped"])
+            pool.append(c)
+        b = gen_borealis_case(rng)
+        b.update(L=10, args=[a[:10] for a in b["args"]], mut=None, loss=False, via_utils=False)
+        pool.append(b)
+        fresh = []
+        for c in pool:
+            hard_reset(sf)
+            prog, dev, cn = prepare_any(sf, fx, c)
+            fresh.append(outcome_any(sf, prog, dev, cn))
+        hard_reset(sf)
+        seq = [rng.randrange(len(pool)) for _ in range(10)]
+        hist = []
+        for i in seq:
+            c = pool[i]
+            policy = rng.choice(["reset", "reset", "none"])
+            prog, dev, cn = prepare_any(sf, fx, c)
+            name = cn or dev.default_compiler
+            cls = compiler_db[name]
+            if policy == "reset":
+                cls.reset_circuit()
+            clash = bool(cls._layout) and strip(cls._layout) != strip(dev.layout) and dev.default_compiler == cls.short_name
+            got = outcome_any(sf, prog, dev, cn)
+            hist.append((i, policy))
+            ctx.oracle_cases += 1
+            ctx.count("history:" + policy + (":clash" if clash else ""), None, True)
+            want = ("err", "CircuitError") if clash else fresh[i]
+            if got != want:
+                rp = dict(kind="history", pool=pool, hist=hist)
+                ctx.fail(f"history-dependent:{name}", f"{name}: after the compile history {hist} (reset = reset_circuit() before the compile) the outcome is "
+                         f"{got[0]}{'/' + got[1] if got[0] == 'err' else ''}, on a fresh class it is {want[0]}{'/' + want[1] if want[0] == 'err' else ''}", rp)
+                break
+        hard_reset(sf)
+
+
+def replay_history(ctx, sf, fx, rp):
+    from strawberryfields.compilers import compiler_db
+    pool, hist = rp["pool"], rp["hist"]
+    strip = lambda t: (t or "").replace("\n", "")
+    fresh = {}
+    for i, _ in hist:
+        if i not in fresh:
+            hard_reset(sf)
+            prog, dev, cn = prepare_any(sf, fx, pool[i])
+            fresh[i] = outcome_any(sf, prog, dev, cn)
+    hard_reset(sf)
+    bad = False
+    for i, policy in hist:
+        prog, dev, cn = prepare_any(sf, fx, pool[i])
+        cls = compiler_db[cn or dev.default_compiler]
+        if policy == "reset":
+            cls.reset_circuit()
+        clash = bool(cls._layout) and strip(cls._layout) != strip(dev.layout) and dev.default_compiler == cls.short_name
+        got = outcome_any(sf, prog, dev, cn)
+        bad = got != (("err", "CircuitError") if clash else fresh[i])
+    hard_reset(sf)
+    if bad:
+        ctx.fail("history-dependent", "outcome depends on the compile history", rp)
+
+
+def helpers_oracle(ctx, sf, fx):
+    """public helpers of the anchored files that the compile path or its users rely on: documented behaviour pinned"""
+    from strawberryfields.tdm import utils as tu
+    rng = ctx.rng
+    # get_mode_indices: n[i] = sum(delays[i:]), N = sum(delays) + 1
+    for _ in range(ctx.n(10, 60)):
+        delays = [rng.randint(1, 40) for _ in range(rng.randint(1, 4))]
+        d0 = list(delays)
+        n, N = tu.get_mode_indices(delays)
+        ctx.oracle_cases += 1
+        if list(map(int, n)) != [sum(delays[i:]) for i in range(len(delays) + 1)] or N != sum(delays) + 1 or delays != d0:
+            ctx.fail("tdm-utils:get_mode_indices", f"get_mode_indices({d0}) = {list(n)}, {N}", dict(kind="helpers"))
+    # to_args_list / to_args_dict: the documented order, inverse of each other, inputs untouched
+    dev = borealis_device(sf, fx, [0.1, -0.1, 3.0])[0]
+    for _ in range(ctx.n(6, 40)):
+        L = rng.randint(1, 6)
+        d = {"Sgate": [rng.random() for _ in range(L)],
+             "loops": {i: {"Rgate": [rng.random() for _ in range(L)], "BSgate": [rng.random() for _ in range(L)]} for i in range(3)}}
+        d0 = copy.deepcopy(d)
+        want = [d["Sgate"]] + [d["loops"][i][g] for i in range(3) for g in ("Rgate", "BSgate")]
+        ctx.oracle_cases += 1
+        try:
+            l1, l2 = tu.to_args_list(d, dev), tu.to_args_list(d)
+            back = tu.to_args_dict(l1, dev)
+            ok = l1 == want and l2 == want and back == d0 and d == d0
+        except Exception as e:  # noqa: BLE001
+            ok = False
+        if not ok:
+            ctx.fail("tdm-utils:to_args", "to_args_list / to_args_dict do not give the documented order / are not inverse of each other", dict(kind="helpers"))
+    # Device.create_program: the layout with the given values, first allowed value for the others; validate_target
+    for _ in range(ctx.n(6, 40)):
+        N = rng.choice([2, 3, 4])
+        spec = hw12.x_spec(N, rng.choice([[0, 1], [1, 0]]), [0, [0, hw12.TWO_PI]], compiler=rng.choice([[], ["Xstrict"], ["Xcov"]]))
+        spec0 = copy.deepcopy(spec)
+        dev = sf.Device(spec)
+        names = sorted(spec["gate_parameters"])
+        given = {k: (rng.choice([0, 1]) if k.startswith("squeezing") else dy(rng, 0, 6)) for k in rng.sample(names, rng.randint(0, len(names)))}
+        for i in range(N):          # the unitary compilers need the same final phases on both halves
+            a, b = f"final_phase_{i}", f"final_phase_{i + N}"
+            if a in given or b in given:
+                given[a] = given[b] = given.get(a, given.get(b))
+        g0 = dict(given)
+        ctx.oracle_cases += 1
+        reset_compilers(sf)
+        try:
+            prog = dev.create_program(**given)
+            sk = hw12.circuit_skeleton(prog)
+            full = {k: g0.get(k, spec0["gate_parameters"][k][0]) for k in names}
+            lay = [(c, m, [float(full[p_]) if isinstance(p_, str) else p_ for p_ in ps]) for c, m, ps in hw12.x_layout_skeleton(N)]
+            ok = hw12.wires_view(sk) == hw12.wires_view(lay)
+            why = "program does not have the layout's structure"
+            if ok and dev.default_compiler == "Xstrict":
+                ok = sorted(map(repr, sk)) == sorted(map(repr, [(c, m, [float(x) for x in ps]) for c, m, ps in lay]))
+                why = "program differs from the layout instance"
+            elif ok:
+                _, N1, M1 = ref_state(2 * N, sk).alpha_N_M()
+                _, N2, M2 = ref_state(2 * N, lay).alpha_N_M()
+                f_ = (lambda z: z) if dev.default_compiler == "Xunitary" else np.abs
+                ok = max(float(np.max(np.abs(f_(N1) - f_(N2)))), float(np.max(np.abs(f_(M1) - f_(M2))))) < 1e-6
+                why = "program does not prepare the state of the layout instance"
+        except Exception as e:  # noqa: BLE001
+            ok, why = False, f"{type(e).__name__}: {str(e)[:80]}"
+        finally:
+            reset_compilers(sf)
+        if ok and (spec != spec0 or given != g0 and set(g0) - set(given)):
+            ok, why = False, "inputs changed in place"
+        if not ok:
+            ctx.fail("device:create_program", f"Device.create_program on a {2 * N}-mode X layout: {why}", dict(kind="helpers"))
+        # target of the specification must be the target of the layout
+        bad = dict(spec0, target="other")
+        try:
+            sf.Device(bad)
+            ctx.fail("device:validate_target", "Device accepts a specification whose target differs from the layout's target", dict(kind="helpers"))
+        except ValueError:
+            pass
+
+
 # ====================================================================== correspondence
 F = hw12.frac
 
@@ -1558,6 +1746,8 @@ def run(ctx, sf):
         borealis_oracle(ctx, sf, fx, gen_borealis_case(rng))
     for _ in range(ctx.n(40, 400)):
         tdm1_oracle(ctx, sf, gen_tdm1_case(rng))
+    history_oracle(ctx, sf, fx)
+    helpers_oracle(ctx, sf, fx)
 
 
 def search(ctx, sf):
@@ -1573,4 +1763,8 @@ def replay(ctx, rp):
         borealis_oracle(ctx, sf, fixture_ns(sf), rp, count=False)
     elif rp["kind"] == "tdm1":
         tdm1_oracle(ctx, sf, rp, count=False)
+    elif rp["kind"] == "history":
+        replay_history(ctx, sf, fixture_ns(sf), rp)
+    elif rp["kind"] == "helpers":
+        helpers_oracle(ctx, sf, fixture_ns(sf))
     return len(ctx.failures) > n0
